@@ -52,8 +52,7 @@ impl Controller for StaticResourceController {
             if md.is_dir() {
                 let mut directory_index : String = "index.html".to_string();
 
-                let last_char = components.path.chars().last().unwrap();
-                if last_char != '/' {
+                if !components.path.ends_with('/') {
                     let index : String = "index.html".to_string();
                     directory_index = format!("{}{}", os_specific_separator, index);
 
@@ -312,8 +311,7 @@ impl StaticResourceController {
 
                 let mut directory_index : String = "index.html".to_string();
 
-                let last_char = components.path.chars().last().unwrap();
-                if last_char != '/' {
+                if !components.path.ends_with('/') {
                     let index : String = "index.html".to_string();
                     directory_index = format!("{}{}", os_specific_separator, index);
                 }
@@ -347,8 +345,7 @@ impl StaticResourceController {
 
                     let mut directory_index : String = "index.html".to_string();
 
-                    let last_char = components.path.chars().last().unwrap();
-                    if last_char != '/' {
+                    if !components.path.ends_with('/') {
                         let index : String = "index.html".to_string();
                         directory_index = format!("{}{}", os_specific_separator, index);
                     }
